@@ -36,7 +36,13 @@ def gen_parts(self, g, st, spec):
     if len(g.generators) != 1:
         raise EngineError("generator expression with several for-clauses")
     comp = g.generators[0]
-    desc = self.iterable(comp.iter, st)
+    filt = None
+    it = comp.iter
+    if isinstance(it, ast.Call) and ast.unparse(it.func) == "filter" and len(it.args) == 2 and isinstance(it.args[0], ast.Lambda):
+        # filter(lambda x: c, seq): the elements of seq for which c holds (only under sum / all / any)
+        filt = it.args[0]
+        it = it.args[1]
+    desc = self.iterable(it, st)
     k = V.fresh("k", I)
     mark = V.fresh_mark()
     st2 = State(env=dict(st.env), pc=st.pc, heap=st.heap, old=st.old, nxt=st.nxt)
@@ -46,6 +52,10 @@ def gen_parts(self, g, st, spec):
     nobl = len(self.obls)
     self.assign(comp.target, desc.item(k), st2, comp)
     conds = [self.truthy(self.ev(c, st2, spec), st2) for c in comp.ifs]
+    if filt is not None:
+        st3 = State(env=dict(st2.env), pc=st.pc, heap=st.heap, old=st.old, nxt=st.nxt)
+        st3.env[filt.args.args[0].arg] = desc.item(k)
+        conds.append(self.truthy(self.ev(filt.body, st3, spec), st3))
     cond = z3.And(*conds) if conds else z3.BoolVal(True)
     # the element is evaluated under the guard (k in range, filter holds)
     st2.pc = st.pc
